@@ -15,7 +15,7 @@ ENC = ("fim.graph.networkx_mixin.NetworkXMixin._find_node", "fim.graph.networkx_
        "fim.graph.networkx_property_graph.NetworkXGraphImporter.delete_graph")
 NODE_IDS = ['n0', 'n1', 'n9', 'm1']     # m1 exists only in the OTHER graph g2, n9 nowhere
 OPS = ["add_node", "delete_node", "add_link", "update_node_property", "unset_node_property", "update_nodes_property",
-       "update_node_properties", "update_link_property", "unset_link_property", "import_new", "reimport_same_id",
+       "update_node_properties", "update_link_property", "unset_link_property", "import_new", "reimport_same_id", "reimport_same_id_larger",
        "delete_graph", "delete_then_reimport", "import_without_nodeid"]
 
 
@@ -33,11 +33,16 @@ def mk_store(disjoint, c, v, r, third):
     return imp
 
 
-def new_graph(l, v, with_id=True):
+def new_graph(l, v, with_id=True, larger=False):
     nodes = [{'NodeID': 'n0', 'Class': l, 'P': v}, {'NodeID': 'z1', 'Class': l}]
     if not with_id:
         nodes[1] = {'Class': l, 'NodeID': ''}
-    return raw_graph(nodes, [(0, 1, {'Class': l})], key_base=1)
+    edges = [(0, 1, {'Class': l})]
+    if larger:
+        # more nodes than the graph it replaces had
+        nodes += [{'NodeID': 'z2', 'Class': l}, {'NodeID': 'z3', 'Class': l, 'P': v}]
+        edges += [(1, 2, {'Class': l}), (2, 3, {'Class': l})]
+    return raw_graph(nodes, edges, key_base=1)
 
 
 def do_op(imp, g, op, xi, yi, l, k, v, disjoint):
@@ -64,6 +69,8 @@ def do_op(imp, g, op, xi, yi, l, k, v, disjoint):
             imp.storage.add_graph('g3', new_graph(l, v))
         elif op == "reimport_same_id":
             imp.storage.add_graph('g1', new_graph(l, v))
+        elif op == "reimport_same_id_larger":
+            imp.storage.add_graph('g1', new_graph(l, v, larger=True))
         elif op == "delete_graph":
             g.delete_graph()
         elif op == "delete_then_reimport":
@@ -108,6 +115,11 @@ def _mk(op, disjoint):
             if ids != ['n0', 'z1'] or gids != ['g3', 'g3']:
                 return False
             if content(imp, 'g1') is None or len(content(imp, 'g1')[0]) != 2:
+                return False
+        if op == "reimport_same_id_larger" and not disjoint:
+            # the shared store replaces the graph (the per-graph store's skip is the listed C05 finding): all four nodes and three edges are there
+            c1 = content(imp, 'g1')
+            if not ok or c1 is None or [dict(p).get('NodeID') for p in c1[0]] != ['n0', 'z1', 'z2', 'z3'] or len(c1[1]) != 3:
                 return False
         if op == "delete_then_reimport":
             c1 = content(imp, 'g1')
